@@ -157,13 +157,7 @@ func genThresholds(e *emitter, maxN int) {
 				}
 			}
 			if n == 0 {
-				// a graph without pipelines exists once a threshold has been set
-				for thr := 0; thr <= 1; thr++ {
-					for thrS := 0; thrS <= 1; thrS++ {
-						h := append(append([]Op{}, hist...), Op{K: "thr", Ety: 1, V: int64(thr)}, Op{K: "thrs", Ety: 1, V: int64(thrS)})
-						e.run(Case{Gen: "thresholds", Hist: h, Ety: 1, Beh: beh})
-					}
-				}
+				genEmptyGraph(e, hist, beh)
 				continue
 			}
 			for thr := 0; thr <= n+1; thr++ {
@@ -180,6 +174,61 @@ func genThresholds(e *emitter, maxN int) {
 			h := append(append([]Op{}, hist...), Op{K: "thr", Ety: 1, V: 1})
 			e.run(Case{Gen: "thresholds-precancel", Hist: h, Ety: 1, Beh: beh, Sched: Sched{Pre: true}})
 		}
+	}
+}
+
+// a graph that holds no pipeline: created by a threshold call alone, by a refused RegisterPipeline, or emptied again by
+// RemovePipeline / RemovePipelineAndNodes — x both thresholds in 0..2 (0 completes < threshold must be an error) — and,
+// next to it, the type that has no graph at all.  hist registers nodes 50 (formatter), 60, 61 (sinks) as objects 1..3.
+func genEmptyGraph(e *emitter, hist []Op, beh [][]int) {
+	beh = append(append([][]int{}, beh...), []int{0}, []int{0}, []int{0}, []int{0}, []int{0}, []int{0})
+	type variant struct {
+		name   string
+		before []Op // before the thresholds are set
+		after  []Op // after the thresholds are set
+	}
+	reg := Op{K: "regpipe", Pid: 1, Ety: 1, IDs: []int{50, 60}}
+	again := []Op{{K: "regnode", ID: 50, Ty: 2}, {K: "regnode", ID: 60, Ty: 3}}
+	variants := []variant{
+		{"thr-only", nil, nil},
+		// refused: node 77 is not registered, and a sink without formatter — the graph of the type is created all the same
+		{"refused-regpipe", []Op{{K: "regpipe", Pid: 1, Ety: 1, IDs: []int{50, 77}}, {K: "regpipe", Pid: 2, Ety: 1, IDs: []int{60, 61}}}, nil},
+		{"thr-then-rmpipe", nil, []Op{reg, {K: "rmpipe", Pid: 1, Ety: 1}}},
+		{"rmpipe-then-thr", []Op{reg, {K: "rmpipe", Pid: 1, Ety: 1}}, nil},
+		{"thr-then-rpan", nil, []Op{reg, {K: "rpan", Pid: 1, Ety: 1}}},
+		{"rpan-then-thr", []Op{reg, {K: "rpan", Pid: 1, Ety: 1}}, nil},
+		// emptied and filled again: the thresholds still count against the one pipeline
+		{"refilled", nil, append(append([]Op{reg, {K: "rpan", Pid: 1, Ety: 1}}, again...), reg)},
+	}
+	for _, v := range variants {
+		for thr := 0; thr <= 2; thr++ {
+			for thrS := 0; thrS <= 2; thrS++ {
+				h := append(append([]Op{}, hist...), v.before...)
+				// thresholds 0/0 are left unset where something else has already created the graph
+				if thr > 0 || len(v.before) == 0 {
+					h = append(h, Op{K: "thr", Ety: 1, V: int64(thr)})
+				}
+				if thrS > 0 || len(v.before) == 0 {
+					h = append(h, Op{K: "thrs", Ety: 1, V: int64(thrS)})
+				}
+				h = append(h, v.after...)
+				h, _ = numberObjs(h)
+				e.run(Case{Gen: "empty-graph:" + v.name, Hist: h, Ety: 1, Beh: beh})
+				if thr == 2 && thrS == 0 {
+					e.run(Case{Gen: "empty-graph-precancel:" + v.name, Hist: h, Ety: 1, Beh: beh, Sched: Sched{Pre: true}})
+				}
+			}
+		}
+	}
+	// no graph at all: nothing ever mentioned the type; only another type has a graph / thresholds; only refused
+	// threshold calls (negative) and a refused removal mentioned it
+	for i, extra := range [][]Op{
+		nil,
+		{{K: "thr", Ety: 2, V: 1}, {K: "thrs", Ety: 2, V: 2}, {K: "regpipe", Pid: 1, Ety: 2, IDs: []int{50, 60}}},
+		{{K: "thr", Ety: 1, V: -1}, {K: "thrs", Ety: 1, V: -1}, {K: "rmpipe", Pid: 1, Ety: 1}, {K: "rpan", Pid: 1, Ety: 1}},
+	} {
+		h, _ := numberObjs(append(append([]Op{}, hist...), extra...))
+		e.run(Case{Gen: []string{"no-graph", "no-graph-other-type", "no-graph-refused-calls"}[i], Hist: h, Ety: 1, Beh: beh})
 	}
 }
 
